@@ -131,6 +131,10 @@ class PolicyDirectoryMonitor(multiprocessing.Process):
                 for p in set(old_p) - set(new_p.keys()):
                     self.disassociate_policy_and_file(p, f)
                     self.restore_or_delete_policy(p)
+                # Drop cached (shadowed) definitions of policies that this
+                # file no longer defines so they cannot be restored later.
+                for p in set(self.policy_cache.keys()) - set(new_p.keys()):
+                    self.disassociate_policy_and_file(p, f)
 
     def run(self):
         """
